@@ -105,6 +105,14 @@ def call(m, name, args, g, I):
         return g, 0, False
     if name in ('pthread_mutex_init', 'pthread_mutex_destroy'):
         return g, 0, False
+    if name in ('memcpy', 'memmove', '__memcpy_chk', '__memmove_chk'):
+        eg, key = m.vis(g)
+        for n, c in _lens(m, args[2], eg):
+            _copy(m, args[0], args[1], n, And(eg, c))
+        return g, args[0], False
+    if name == 'memset':
+        intrinsic(m, 'llvm.memset.p0i8.i64', [args[0], Trunc(args[1], 32, 8) if isinstance(args[1], Term) else args[1] & 255, args[2], False], g, I)
+        return g, args[0], False
     if name == 'memcmp' or name == 'bcmp':
         n = args[2]
         if isinstance(n, Term): raise Unsupported('symbolic memcmp length')
